@@ -106,10 +106,26 @@ def r2_stacking(idx, r):
     r.require(len(bd) == 1 and norm(bd[0].value) == "array(mesh)" and len(fin) == 1 and norm(fin[0].value) == "tuple(bounds)", "grid-bounds-equal-mesh", f, msg="the axial grid bounds are replaced by the new elevations")
     cb = idx.func(AX + "axialExpansionChanger._checkBlockHeight")
     hp = cb.params()[0]
-    neg = next((n for n in walk_local(cb.node) if isinstance(n, ast.If) and norm(n.test) in (f"{hp}.getHeight() < 0.0", f"{hp}.getHeight() <= 0.0")), None)
-    r.require(neg is not None and always_exits(neg.body) and any(isinstance(x, ast.Raise) for x in neg.body), "negative-height-raises", cb, msg="a negative block height must raise")
-    if neg is not None:
-        r.require(norm(neg.test) == f"{hp}.getHeight() <= 0.0", "zero-height-raises", cb, node=neg, msg="the property demands positive heights: a block squeezed to exactly zero height must be refused too (`<= 0.0`)")
+    # some raise stands under "height < 0" / "height <= 0", however the test is written (if / guard clause, negated, mirrored)
+    INV = {ast.Lt: ast.GtE, ast.LtE: ast.Gt, ast.Gt: ast.LtE, ast.GtE: ast.Lt}
+    MIR = {ast.Lt: ast.Gt, ast.LtE: ast.GtE, ast.Gt: ast.Lt, ast.GtE: ast.LtE}
+    found = None  # the comparison operator, oriented as `height OP 0`, under which the raise stands
+    for n in walk_local(cb.node):
+        if not isinstance(n, ast.Raise):
+            continue
+        for t, pol in path_conditions(cb.node, n):
+            while isinstance(t, ast.UnaryOp) and isinstance(t.op, ast.Not):
+                t, pol = t.operand, not pol
+            if not (isinstance(t, ast.Compare) and len(t.ops) == 1 and type(t.ops[0]) in INV):
+                continue
+            op, l_, r_ = type(t.ops[0]), norm(t.left), norm(t.comparators[0])
+            if l_ in ("0.0", "0") and r_ == f"{hp}.getHeight()":
+                op, l_, r_ = MIR[op], r_, l_
+            if l_ == f"{hp}.getHeight()" and r_ in ("0.0", "0"):
+                found = op if pol else INV[op]
+    r.require(found in (ast.Lt, ast.LtE), "negative-height-raises", cb, msg="a negative block height must raise")
+    if found in (ast.Lt, ast.LtE):
+        r.require(found is ast.LtE, "zero-height-raises", cb, msg="the property demands positive heights: a block squeezed to exactly zero height must be refused too (`<= 0.0`)")
     sa = idx.method(CH, "setAssembly")
     r.require(any(dotted(c.func) == "self._isTopDummyBlockPresent" for c in iter_calls(sa.node)), "dummy-block-checked", sa, msg="setAssembly must check for the top dummy block")
     for meth, seq in (("performThermalAxialExpansion", ["self.setAssembly", "self.expansionData.updateComponentTempsBy1DTempField", "self.expansionData.computeThermalExpansionFactors", "self.axiallyExpandAssembly"]),
